@@ -84,6 +84,17 @@ def correspond(ctx, scale):
         cur = means.clone()
         for _ in range(iters):
             cur, b_it = vqm.kmeans(data, K, num_iters=1, use_cosine_sim=cosine, sample_fn=lambda s, k, cur=cur: cur.clone())
+        # a seeding function that returns a VIEW of the data (sample_fn = lambda samples, num: samples[:, :num], a subclass override): k-means reads
+        # its seeds, it does not write through them - the data are untouched and the result is that of the same seeds handed over as a copy
+        if N >= K:
+            data_v = data.clone()
+            m_view, b_view = vqm.kmeans(data_v, K, num_iters=iters, use_cosine_sim=cosine, sample_fn=lambda s, k: s[:, :k])
+            m_copy, b_copy = vqm.kmeans(data.clone(), K, num_iters=iters, use_cosine_sim=cosine, sample_fn=lambda s, k: s[:, :k].clone())
+            dist['view_seed_kmeans'] = dist.get('view_seed_kmeans', 0) + 1
+            if not torch.equal(data_v, data) or not (torch.equal(m_view, m_copy) and torch.equal(b_view, b_copy)):
+                failures.append({'key': 'kmeans-view-seeds', 'what': f'kmeans(num_iters={iters}) with a seeding function that returns a view of the data: '
+                                 + ('the data were modified in place' if not torch.equal(data_v, data) else 'the result differs from the same seeds handed over as a copy') + f' (N={N}, K={K}, cosine={cosine})',
+                                 'case': dict(kind='view-seeds', data=dl, iters=iters, cosine=cosine)})
         dist['loop_vs_iterated'] += 1
         if not (torch.equal(cur, m_loop) and torch.equal(b_it, b_loop)):
             failures.append({'key': 'kmeans-loop', 'what': f'kmeans(num_iters={iters}) differs from iterating one iteration {iters} times (N={N}, K={K}, cosine={cosine})',
